@@ -480,7 +480,9 @@ pub fn c13_run(max_slices: usize) -> WorldOutcome {
     }
     // delivery schedule: per slice at least 32 shreds (so reconstruction is owed), any order, duplicates
     let mut sched: Vec<ValidatedShred> = Vec::new();
+    let mut last_start = 0;
     for slice_shreds in &blk.shreds {
+        last_start = sched.len();
         let keep = 32 + kernel::choose(N, 33) as usize;
         let mut idx: Vec<usize> = (0..TOTAL_SHREDS).collect();
         for i in (1..idx.len()).rev() {
@@ -496,11 +498,21 @@ pub fn c13_run(max_slices: usize) -> WorldOutcome {
         }
     }
     let n_extra = if extra.is_empty() { 0 } else { 1 + kernel::choose(N, 40) as usize };
-    for s in extra.iter().take(n_extra) {
-        sched.push(s.clone());
+    let order = kernel::choose(N, 5);
+    if order == 1 || order == 2 {
+        // the contradicting shreds arrive before (1) everything or (2) the block's last slice
+        let at = if order == 1 { 0 } else { last_start };
+        let tail = sched.split_off(at);
+        sched.extend(extra.iter().take(n_extra).cloned());
+        sched.extend(tail);
+        kernel::fault("reordering");
+    } else {
+        for s in extra.iter().take(n_extra) {
+            sched.push(s.clone());
+        }
     }
-    match kernel::choose(N, 3) {
-        0 => {} // slice by slice
+    match order {
+        0 | 1 | 2 => {} // slice by slice
         _ => {
             for i in (1..sched.len()).rev() {
                 let j = i - kernel::choose(N, (i + 1) as u64) as usize;
